@@ -16,3 +16,10 @@ Definition c_StructEnd := 11.
 Definition c_ZeroTag := 12.
 Definition c_SimpleList := 13.
 Definition c_maxSkipDepth := 512.
+Definition c_TARSVERSION := (1)%Z.
+Definition c_TUPVERSION := (3)%Z.
+Definition c_JSONVERSION := (5)%Z.
+Definition c_TARSNORMAL := (0)%Z.
+Definition c_TARSONEWAY := (1)%Z.
+Definition c_TARSSERVERSUCCESS := (0)%Z.
+Definition c_TARSSERVERQUEUETIMEOUT := (-6)%Z.
